@@ -121,7 +121,7 @@ func execConfine(c fw.Case) string {
 	cl.ReadFrames(n, 2*time.Second)
 	cl.Close()
 	_, _, saved := srv.WaitForFrom(mark, func(e sock.Event) bool { return sock.Str(e, "event") == "file-saved" && !sock.Bool(e, "probe") }, 3*time.Second)
-	if !srv.Alive() {
+	if !srv.Ping(2 * time.Second) {
 		_, code, tail := srv.ExitInfo()
 		confineLast.orc = &fw.OracleFailure{Sig: "attach-server/died", Msg: fmt.Sprintf("attachment server exited with code %d: %s", code, lastLines(tail, 6))}
 		return "scenario-failed:server/died"
